@@ -433,7 +433,7 @@ PROPS = {
         "trusted": [
             "modelled, not verified: Go's io.ReadFull/io.CopyN/bytes.Buffer/bufio.Writer (a reader over a byte stream yields the next n bytes or an error), encoding/binary, encoding/hex, unicode/utf8 ([]rune conversion and EncodeRune are written out in Model/Bytea.v and replayed against the real functions)",
             "the literal tag bytes 0xfb..0xfe and bounds 250/0xffff/0xffffff of decryptor/mysql/base/utils.go are written in the model (they are not named constants); the replay of the boundary table on every run ties them to the code",
-            "not modelled (differential oracle + independent codec pgproto3 only): Bind round-trip theorem (model and replay exist, no theorem), Parse packets, RowDescription/ParameterDescription rewriting, MySQL 3-byte packet framing, binary-protocol rows and NULL bitmap"
+            "Bind / Parse / Execute / GetSimpleQuery are CHECKED models (Lib/GoSlice.v; int(uint16)/int(uint32) written out; the NULL parameter marker 0xFFFFFFFF is a literal of utils.go tied by the replay of the edge table); not modelled (implementation oracle only, through the hook VerifS14Proxy): PgProxy.handleClientPacket / handleDatabasePacket around them (statement registry, pg_query, pgproto3's RowDescription/ParameterDescription codecs), MySQL 3-byte packet framing, binary-protocol rows and NULL bitmap"
         ],
         "assumptions": [
             "message/payload lengths below 2^32 and column counts below 2^16 where the protocol's own fields are that wide (premises of the theorems)",
